@@ -22,6 +22,7 @@ and many options to consider when collecting.
 """
 
 import abc
+import types
 from collections import deque
 from typing import List
 
@@ -87,6 +88,10 @@ ITER_LIKE_TYPES = [
 
 # We cannot process child nodes of iterators so add the iterator types to the no child types.
 NO_CHILD_TYPES += ITER_LIKE_TYPES
+
+__ITER_LIKE = (type(iter([])), type(reversed([])))
+__NO_CHILD = (str, int, float, bool, type, types.ModuleType, type(None), types.TracebackType) + __ITER_LIKE
+"""The types themselves: an application class merely NAMED 'module' or 'list_iterator' is an object like any other."""
 
 
 class Collector(abc.ABC):
@@ -236,7 +241,7 @@ def variable_to_string(variable_type, var_value):
     :param var_value: the variable value
     :return: a string of the value
     """
-    if variable_type.__name__ in ITER_LIKE_TYPES:
+    if variable_type in __ITER_LIKE:
         # if interator like then make a custom string - we do not want to mess with iterators
         return 'Iterator of type: %s' % variable_type
     elif is_dict_like(variable_type) or is_list_like(variable_type):
@@ -318,7 +323,7 @@ def process_child_nodes(
     """
     variable_type = type(var_value)
     # if the type is a type we do not want children from - return empty
-    if variable_type.__name__ in NO_CHILD_TYPES:
+    if variable_type in __NO_CHILD:
         return []
 
     # if the depth is more than we are configured - return empty
